@@ -20,6 +20,7 @@ import re
 import shutil
 
 from vf import gen, observe
+from vf.runner import Discard
 
 ID = "C17"
 LEVEL = "exploration"
@@ -237,13 +238,45 @@ def _do_merge(wt, ob, other_rev, mt, driver, uncommitted):
 
     if driver == "merge_from_branch":
         with wt.lock_write():
-            return list(wt.merge_from_branch(ob, to_revision=other_rev, merge_type=mt, force=uncommitted)), None
+            # force: merge_from_branch's refusal to merge into a changed tree is not the subject here
+            return list(wt.merge_from_branch(ob, to_revision=other_rev, merge_type=mt, force=True)), None
     with wt.lock_write():
         merger = Merger.from_revision_ids(wt, other_rev, other_branch=ob)
         merger.merge_type = mt
         cooked = merger.do_merge()
         merger.set_pending()
         return list(cooked), merger
+
+
+def _git_mechanism(base_tree, this_tree, other_tree, base_snap, this_snap, other_snap):
+    """Name the path-pairing mechanism behind a failed law on git trees, by asking the real find_previous_path.
+
+    Merge3Merger._entries3 pairs every entry of OTHER-vs-BASE with a path in THIS through find_previous_path; on
+    git trees that is content-similarity rename detection plus a look at the disk.  Only classifies - never judges.
+    """
+    from breezy import tree as _mod_tree
+
+    try:
+        with base_tree.lock_read(), this_tree.lock_read(), other_tree.lock_read():
+            for q, v in sorted(other_snap.items()):
+                if q not in base_snap and v[0] != "directory":
+                    tp = _mod_tree.find_previous_path(other_tree, this_tree, q)
+                    if tp not in (None, q):
+                        return "new-file-paired-with-alike-file-in-this"
+            image = {}
+            for p, v in sorted(base_snap.items()):
+                tp = _mod_tree.find_previous_path(base_tree, this_tree, p)
+                if tp is None:
+                    continue
+                if tp not in this_snap:
+                    return "unversioned-directory-on-disk" if v[0] == "directory" else "unversioned-path-on-disk"
+                if v[0] != "directory":
+                    image.setdefault(tp, []).append(p)
+            if any(len(ps) > 1 for ps in image.values()):
+                return "copy-taken-for-rename"
+    except Exception:
+        return None
+    return None
 
 
 def case(ctx):
@@ -255,7 +288,6 @@ def case(ctx):
 
 
 def _case(ctx):
-    from breezy import errors
     from breezy import merge as _mod_merge
     from breezy.branch import Branch
     from breezy.workingtree import PointlessMerge, WorkingTree
@@ -287,7 +319,8 @@ def _case(ctx):
         if criss:
             _criss_cross(twt, owt, git)
             twt, owt = WorkingTree.open(tdir), WorkingTree.open(odir)
-    except (errors.BzrError, OSError) as e:
+    except Exception as e:  # workload construction (commit / sprout of a generated tree) is other properties' subject
+        ctx.hist("build-refused:base:%s" % type(e).__name__)
         ctx.discard("build-base:%s" % type(e).__name__)
     tops = _tops(base_snap)
     if len(tops) < 2:
@@ -335,7 +368,10 @@ def _case(ctx):
             _commit(owt, "other", n + 1, git)
         elif law == "other=base" and pointless_tip:
             _commit(owt, "other-same", n + 1, git, allow_pointless=True)
-    except (errors.BzrError, OSError) as e:
+    except Discard:
+        raise
+    except Exception as e:  # e.g. commit of a generated delta refused or failing: C01 / C09 / C10 judge that, not this check
+        ctx.hist("build-refused:delta:%s" % type(e).__name__)
         ctx.discard("build-delta:%s:%s" % (law, type(e).__name__))
     ob = Branch.open(odir)
     other_rev = ob.last_revision()
@@ -415,32 +451,36 @@ def _case(ctx):
         got_disk = observe.snap_disk(mdir)
         confl = list(wt.conflicts())
         tag = "%s:%s" % (law, ("git-lca" if criss else "git") if git else ("lca" if criss else "bzr"))
+        failures = []
         ctx.count("oracle_conflicts")
         if confl or cooked:
             allc = list(confl) + list(cooked)
             what = sorted({getattr(c, "typestring", type(c).__name__) for c in allc})[0].replace(" ", "-")
-            if git and not confl and all(c.path not in this_snap and c.path not in other_snap and this_disk.get(c.path, (None,))[0] == "directory" for c in allc):
-                # every reported path is a directory that neither THIS's nor OTHER's tree versions (git versions no directories)
-                # but that still exists on THIS's disk because it holds unversioned content
-                what = "unversioned-directory-on-disk"
-            elif git and not confl and all(this_snap.get(c.path, (None,))[0] == "directory" and other_snap.get(c.path, (None,))[0] == "directory"
-                                           and c.path not in base_snap for c in allc):
+            if git and not confl and all(this_snap.get(c.path, (None,))[0] == "directory" and other_snap.get(c.path, (None,))[0] == "directory"
+                                         and c.path not in base_snap for c in allc):
                 # every reported path is a directory that both sides have and BASE has not (renamed / created identically on both sides)
                 what = "directory-new-on-both-sides"
-            ctx.fail("conflicts:%s:%s" % (tag, what), "law %s: merge reported conflicts %r (returned %r)" % (law, confl, cooked), detail)
+            failures.append(("conflicts", what, "law %s: merge reported conflicts %r (returned %r)" % (law, confl, cooked)))
         ctx.count("oracle_tree")
         if got_tree != want_tree:
             what = "paths" if set(got_tree) != set(want_tree) else (
                 "ids" if observe.strip_ids(got_tree) == observe.strip_ids(want_tree) else
                 "exec" if {p: v[:2] for p, v in got_tree.items()} == {p: v[:2] for p, v in want_tree.items()} else "content")
-            ctx.fail("tree:%s:%s" % (tag, what), "law %s: tree after merge differs: %r" % (law, _diff(got_tree, want_tree)), detail)
+            failures.append(("tree", what, "law %s: tree after merge differs: %r" % (law, _diff(got_tree, want_tree))))
         ctx.count("oracle_disk")
         gd, wd = (got_disk, want_disk) if not git else (_nodirs(got_disk), _nodirs(want_disk))
         if gd != wd:
             extra = sorted(set(gd) - set(wd))
             helpers = [p for p in extra if p.endswith(SUFFIXES) or re.search(r"\.~\d+~$", p)]
             what = "helper-files" if helpers else ("extra-files" if extra else ("missing-files" if set(wd) - set(gd) else "content"))
-            ctx.fail("disk:%s:%s" % (tag, what), "law %s: disk after merge differs: %r" % (law, _diff(gd, wd)), detail)
+            failures.append(("disk", what, "law %s: disk after merge differs: %r" % (law, _diff(gd, wd))))
+        if failures:
+            mech = None
+            if git:
+                mech = _git_mechanism(bwt.branch.repository.revision_tree(base_rev), WorkingTree.open(tdir),
+                                      ob.repository.revision_tree(other_rev), base_snap, this_snap, other_snap)
+            for oracle, what, msg in failures:
+                ctx.fail("%s:%s:%s" % (oracle, tag, mech or what), msg, detail)
         ctx.distinct("result-tree", sorted((p, repr(v)) for p, v in got_tree.items()))
         ctx.note((law, fmt, criss, uncommitted, mname, kinds1, kinds2, sorted((p, repr(v[:3])) for p, v in want_tree.items())),
                  nontrivial=nontrivial,
